@@ -7,6 +7,7 @@ facts that the order/tolerance proofs need:
     x <= y  =>  R(x) <= R(y)                      (rounding is monotone)
     x >= 0  =>  R(x) >= 0,   x <= 0 => R(x) <= 0   (sign)
     |R(x) - x| <= 2**-53 |x|                      (normal range; harness asserts ranges)
+    x an integer, |x| <= 2**53  =>  R(x) = x      (integers are exactly representable)
     c a double constant:  x <= c => R(x) <= c,  x >= c => R(x) >= c   (never crosses a double)
 
 PW : Real x Real -> Real stands for libm pow(base, exponent) on base >= 0 with a
@@ -24,6 +25,7 @@ R = z3.Function('R', z3.RealSort(), z3.RealSort())
 PW = z3.Function('PW', z3.RealSort(), z3.RealSort(), z3.RealSort())
 PWF = z3.Function('PWF', z3.Float64(), z3.Float64(), z3.Float64())
 EPS = z3.RealVal('1/9007199254740992')   # 2**-53
+TWO53 = z3.RealVal(2 ** 53)
 
 
 def _is_double_const(t):
@@ -50,6 +52,17 @@ def rnd(exact):
     for (a, _) in eng.r_apps:
         if a.eq(exact):
             return app
+    a, ra = exact, app
+    ax = eng.add_axiom
+    ax(z3.Implies(a >= 0, z3.And(ra >= 0, ra - a <= EPS * a, a - ra <= EPS * a)))
+    ax(z3.Implies(a <= 0, z3.And(ra <= 0, ra - a <= -EPS * a, a - ra <= -EPS * a)))
+    ax(z3.Implies(z3.And(z3.IsInt(a), a <= TWO53, a >= -TWO53), ra == a))
+    for (b, rb) in eng.r_apps:
+        ax(z3.Implies(a <= b, ra <= rb))
+        ax(z3.Implies(b <= a, rb <= ra))
+    for c in getattr(eng, 'double_consts', ()):
+        ax(z3.Implies(a <= c, ra <= c))
+        ax(z3.Implies(a >= c, ra >= c))
     eng.r_apps.append((exact, app))
     return app
 
@@ -67,35 +80,10 @@ def pw(x, o):
     eng = E.cur()
     e = realval(float(o))
     app = PW(x.term, e)
+    eng.add_axiom(app >= 0)
+    for (b2, e2, p2) in eng.pw_apps:
+        if e2 == float(o) and e2 > 0:
+            eng.add_axiom(z3.Implies(x.term <= b2, app <= p2))
+            eng.add_axiom(z3.Implies(b2 <= x.term, p2 <= app))
     eng.pw_apps.append((x.term, float(o), app))
     return SymFloat(app)
-
-
-def instantiate(eng):
-    """side axioms for the R / PW applications of the current path"""
-    key = (len(eng.r_apps), len(eng.pw_apps), len(getattr(eng, 'double_consts', ())))
-    cache = getattr(eng, '_fm_cache', None)
-    if cache is not None and cache[0] == key and cache[2] is eng.path:
-        return cache[1]
-    ax = []
-    apps = eng.r_apps
-    for i, (a, ra) in enumerate(apps):
-        ax.append(z3.Implies(a >= 0, z3.And(ra >= 0, ra - a <= EPS * a, a - ra <= EPS * a)))
-        ax.append(z3.Implies(a <= 0, z3.And(ra <= 0, ra - a <= -EPS * a, a - ra <= -EPS * a)))
-        for j in range(i + 1, len(apps)):
-            b, rb = apps[j]
-            ax.append(z3.Implies(a <= b, ra <= rb))
-            ax.append(z3.Implies(b <= a, rb <= ra))
-        for c in getattr(eng, 'double_consts', ()):
-            ax.append(z3.Implies(a <= c, ra <= c))
-            ax.append(z3.Implies(a >= c, ra >= c))
-    pws = eng.pw_apps
-    for i, (b1, e1, p1) in enumerate(pws):
-        ax.append(p1 >= 0)
-        for j in range(i + 1, len(pws)):
-            b2, e2, p2 = pws[j]
-            if e1 == e2 and e1 > 0:
-                ax.append(z3.Implies(b1 <= b2, p1 <= p2))
-                ax.append(z3.Implies(b2 <= b1, p2 <= p1))
-    eng._fm_cache = (key, ax, eng.path)
-    return ax
